@@ -217,6 +217,9 @@ def check_corpus(run_, ctx, rule="D"):
     class _F:   # minimal facts view for the engine (closures etc. are looked up in the corpus crate)
         def fn_by_canon(self, canon):
             return cr.by_canon.get(canon) or F.fn_by_canon(canon)
+
+        def impl_methods(self, trait, name):
+            return F.impl_methods(trait, name)
     FF = _F()
     schemas = {}
     for c in cr.consts:
